@@ -218,56 +218,76 @@ theorem allPlain_joinLines (sep : Char) (ls : List (List Chunk)) (h : ∀ l ∈ 
       · rfl
       · exact ih (fun x hx => h x (by simp [hx])) c (by simpa [joinLines] using hc)
 
-/-! ### strip -/
+/-! ### strip (C09's `Sgr.strip`, for any character class that contains what the package emits) -/
 
-theorem stripGo_params (ps : List Char) (hps : ∀ c ∈ ps, isSgrParam c = true) (buf rest : List Char) :
-    stripGo (.inParams buf) (ps ++ 'm' :: rest) = stripGo .normal rest := by
-  induction ps generalizing buf with
-  | nil => simp [stripGo, isSgrParam]
-  | cons p ps ih =>
-    simp only [List.cons_append, stripGo, hps p (by simp), if_true]
-    exact ih (fun c hc => hps c (by simp [hc])) _
+section Strip
+variable (k : Sgr.CharClass) (fin : Char)
+
+theorem sgr_stripGo_skip (xs rest : List Char) :
+    Sgr.stripGo k fin xs.length (xs ++ rest) = Sgr.stripGo k fin 0 rest := by
+  induction xs with
+  | nil => simp
+  | cons x xs ih => simpa [Sgr.stripGo] using ih
+
+theorem sgr_matchBody_run (body rest : List Char) (hb : ∀ c ∈ body, k.mem c = true) (hf : k.mem fin = false) :
+    Sgr.matchBody k fin (body ++ fin :: rest) = some (body.length + 1) := by
+  induction body with
+  | nil => simp [Sgr.matchBody, hf]
+  | cons c body ih =>
+    simp [Sgr.matchBody, hb c (by simp), ih (fun x hx => hb x (by simp [hx]))]
 
 /-- a well-formed SGR sequence disappears -/
-theorem strip_prefix (p : Color) (hp : ValidPrefix p) (rest : List Char) :
-    stripGo .normal (p ++ rest) = stripGo .normal rest := by
+theorem strip_prefix (hk : ∀ c, isSgrParam c = true → k.mem c = true) (hf : k.mem 'm' = false)
+    (p : Color) (hp : ValidPrefix p) (rest : List Char) :
+    Sgr.stripGo k 'm' 0 (p ++ rest) = Sgr.stripGo k 'm' 0 rest := by
   rcases hp with rfl | ⟨ps, hps, rfl⟩
   · rfl
-  · simp only [List.cons_append, List.append_assoc, stripGo, if_true]
-    exact stripGo_params ps hps [] rest
+  · have hb : ∀ c ∈ ps, k.mem c = true := fun c hc => hk c (hps c hc)
+    have e : (esc :: '[' :: (ps ++ ['m'])) ++ rest = Sgr.ESC :: '[' :: (ps ++ 'm' :: rest) := by
+      simp [esc, Sgr.ESC]
+    rw [e]
+    have hm := sgr_matchBody_run k 'm' ps rest hb hf
+    simp only [Sgr.stripGo, if_true, Sgr.matchAfterEsc, hm, Option.map_some]
+    have := sgr_stripGo_skip k 'm' (ps ++ ['m']) rest
+    simpa using this
 
-theorem strip_reset (rest : List Char) : stripGo .normal (resetSeq ++ rest) = stripGo .normal rest := by
-  apply strip_prefix
+theorem strip_reset (hk : ∀ c, isSgrParam c = true → k.mem c = true) (hf : k.mem 'm' = false) (rest : List Char) :
+    Sgr.stripGo k 'm' 0 (resetSeq ++ rest) = Sgr.stripGo k 'm' 0 rest := by
+  apply strip_prefix k hk hf
   right
   exact ⟨['0'], by simp [isSgrParam], rfl⟩
 
 /-- text without ESC passes through -/
 theorem strip_text (t : List Char) (ht : esc ∉ t) (rest : List Char) :
-    stripGo .normal (t ++ rest) = t ++ stripGo .normal rest := by
+    Sgr.stripGo k fin 0 (t ++ rest) = t ++ Sgr.stripGo k fin 0 rest := by
   induction t with
   | nil => rfl
   | cons c t ih =>
-    have hc : c ≠ esc := by intro h; apply ht; simp [h]
+    have hc : c ≠ Sgr.ESC := by intro h; apply ht; simp [h, esc, Sgr.ESC]
     have := ih (by intro h; apply ht; simp [h])
-    simp [stripGo, hc, this]
+    simp [Sgr.stripGo, hc, this]
 
-theorem strip_chunk (c : Chunk) (hp : ValidPrefix c.pre) (ht : esc ∉ c.text) (rest : List Char) :
-    stripGo .normal (c.str ++ rest) = c.text ++ stripGo .normal rest := by
+theorem strip_chunk (hk : ∀ c, isSgrParam c = true → k.mem c = true) (hf : k.mem 'm' = false)
+    (c : Chunk) (hp : ValidPrefix c.pre) (ht : esc ∉ c.text) (rest : List Char) :
+    Sgr.stripGo k 'm' 0 (c.str ++ rest) = c.text ++ Sgr.stripGo k 'm' 0 rest := by
   unfold Chunk.str Chunk.suffix
-  rw [List.append_assoc, strip_prefix _ hp, List.append_assoc, strip_text _ ht]
+  rw [List.append_assoc, strip_prefix k hk hf _ hp, List.append_assoc, strip_text k 'm' _ ht]
   split
   · simp
-  · rw [strip_reset]
+  · rw [strip_reset k hk hf]
 
 /-- `strip_colors(str(text)) == text.plain_text()` for chunks with well-formed prefixes and ESC-free texts -/
-theorem strip_strOf (cs : List Chunk) (hp : ∀ c ∈ cs, ValidPrefix c.pre) (ht : ∀ c ∈ cs, esc ∉ c.text) :
-    strip (strOf cs) = plainOf cs := by
-  unfold strip
+theorem strip_strOf (hk : ∀ c, isSgrParam c = true → k.mem c = true) (hf : k.mem 'm' = false)
+    (cs : List Chunk) (hp : ∀ c ∈ cs, ValidPrefix c.pre) (ht : ∀ c ∈ cs, esc ∉ c.text) :
+    Sgr.strip k 'm' (strOf cs) = plainOf cs := by
+  unfold Sgr.strip
   induction cs with
   | nil => rfl
   | cons c cs ih =>
     simp only [strOf_cons, plainOf_cons]
-    rw [strip_chunk c (hp c (by simp)) (ht c (by simp))]
+    rw [strip_chunk k hk hf c (hp c (by simp)) (ht c (by simp))]
     rw [ih (fun d hd => hp d (by simp [hd])) (fun d hd => ht d (by simp [hd]))]
+
+end Strip
 
 end Render
